@@ -36,10 +36,7 @@ hs_decimal = Combine(
     Optional(Literal('-')) + hs_digits + Optional(Literal('.') + hs_digits) + Optional(hs_exp)).setParseAction(
     lambda toks: float(toks[0])
 )
-hs_unitChar = hs_alpha | Word(u'%_/$' + u''.join([
-    six.unichr(c)
-    for c in range(0x0080, 0xffff)
-]), exact=1)
+hs_unitChar = hs_alpha | Regex(u'[%_/$\u0080-\U0010ffff]')
 hs_unit = Combine(OneOrMore(hs_unitChar))
 hs_digit = Regex(r'\d')
 hs_digits = Regex(r'[0-9_]+')
